@@ -314,6 +314,8 @@ def tecmp_good(rng):
         p = wire.rbytes(rng, 4) + [n] + wire.rbytes(rng, max(0, have))
         if not bad:
             p += wire.rbytes(rng, rng.choice([0, 0, 2, 3, 4]))
+        elif rng.random() < 0.3:
+            p = p[:rng.randrange(1, 5)]                 # shorter than the arbitration id and length byte
     elif r < 0.5:
         mt, dt = 3, 4
         n = rng.choice([0, 1, 2, 8, rng.randrange(65)])
@@ -321,6 +323,8 @@ def tecmp_good(rng):
         p = [rng.randrange(256), n] + wire.rbytes(rng, max(0, have))
         if not bad and rng.random() < 0.7:
             p += [rng.randrange(256)]
+        elif bad and rng.random() < 0.3:
+            p = p[:1]                                   # the protected id alone
     elif r < 0.7:
         mt, dt = 2, rng.choice([0, 2, 0x55])
         k = rng.choice([0, 1, 2, 9, 40, rng.randrange(41)])
